@@ -125,7 +125,7 @@ static int visit(void * e, void * p)
     if (nvisited < NE) {
         visited[nvisited] = id_of_elem(e);
     }
-    return nvisited++ == stop_at ? 7 : 0;
+    return nvisited++ == stop_at ? h_stop_value(stop_at) : 0;
 }
 
 static void clr(void * e, void * p)
